@@ -1058,7 +1058,11 @@ def substitute_equivalent(modules, log):
                 body[i] = base
                 log.append(("E", q, why))
             else:
-                log.append(("E-no", q, why))
+                try:
+                    lok, _ = equiv.functions_loosely_equivalent(cur, base)
+                except Exception:
+                    lok = False
+                log.append(("E~" if lok else "E-no", q, why if not lok else "tables agree (not a proof)"))
 
 
 def canonicalise(modules, baseline=None):
